@@ -4,7 +4,7 @@ import numpy as np
 from hypothesis import strategies as st
 from hypothesis.extra import numpy as hnp
 from sklearn.metrics import mean_squared_error, r2_score
-from sklearn.model_selection import KFold
+from sklearn.model_selection import KFold, ShuffleSplit
 
 from skmatter.linear_model import Ridge2FoldCV
 from vf import gen
@@ -22,7 +22,7 @@ BUDGET = {"quick": 500, "thorough": 6000}
 RULE = ("Cases: X 6..19 x 2..11 (thorough to 40 x 24) with column scales e^{N(0,s)}, s in {0,1,2}, kinds full / duplicated and summed "
         "columns / exactly rank-deficient products with integer factors, global scale 10^[-3,6]; 1..3 targets = X B/max|X| + noise; "
         "alphas: 1..5 sorted values, absolute 10^[-12,3] or relative {0,1e-9} u 10^[-9,-0.05]; methods tikhonov / cutoff; scorers "
-        "None / neg MSE / neg RMSE / r2; folds from cv=None (shuffle on/off, seeds), an explicit (train,test) pair, or KFold(3); n_jobs "
+        "None / neg MSE / neg RMSE / r2; folds from cv=None (shuffle on/off, seeds), an explicit (train,test) pair covering all samples or only part of them, KFold(3) or ShuffleSplit(train_size=.4, test_size=.4); n_jobs "
         "None (2 in ~1% of cases).  The oracle is evaluated with its rank threshold divided and multiplied by 30; if the two "
         "evaluations differ the data does not determine the answer and the case is skipped.  Non-trivial: >= 2 alphas with different "
         "CV values, or rank-deficient X; distinct = SHA-1 of the canonical case.")
@@ -64,7 +64,7 @@ def strategy_(draw, tier):
     else:
         tail = 10.0 ** draw(hnp.arrays(np.float64, (max(1, na - 1),), elements=st.floats(-9, -0.0625, width=32)))
         alphas = np.sort(np.r_[draw(st.sampled_from([0.0, 1e-9])), tail])
-    cvk = draw(st.sampled_from(["none", "explicit", "kfold"]))
+    cvk = draw(st.sampled_from(["none", "explicit", "kfold", "partial", "shufflesplit"]))
     case = {"X": X, "y": y, "kind": kind, "alphas": alphas, "alpha_type": atype,
             "method": draw(st.sampled_from(["tikhonov", "cutoff"])),
             "scoring": draw(st.sampled_from([None, "neg_mean_squared_error", "neg_root_mean_squared_error", "r2"])),
@@ -74,6 +74,11 @@ def strategy_(draw, tier):
         perm = gen.permutation(draw, n)
         h = draw(st.integers(2, n - 2))
         case["train"], case["test"] = perm[:h], perm[h:]
+    if cvk == "partial":        # the two folds need not cover all samples
+        perm = gen.permutation(draw, n)
+        h = draw(st.integers(2, n - 3))
+        g = draw(st.integers(h + 2, n))
+        case["train"], case["test"] = perm[:h], perm[h:g][: max(2, g - h - draw(st.integers(0, 1)))]
     return case
 
 
@@ -115,9 +120,13 @@ def folds(case):
         rs = case["seed"] if case["shuffle"] else None
         tr, te = next(KFold(2, shuffle=case["shuffle"], random_state=rs).split(X))
         return None, dict(shuffle=case["shuffle"], random_state=rs), tr, te
-    if case["cv"] == "explicit":
+    if case["cv"] in ("explicit", "partial"):
         tr, te = np.asarray(case["train"]), np.asarray(case["test"])
         return [(tr, te)], {}, tr, te
+    if case["cv"] == "shufflesplit":
+        ss = ShuffleSplit(n_splits=2, train_size=0.4, test_size=0.4, random_state=case["seed"])
+        tr, te = next(ss.split(X))
+        return ss, {}, tr, te
     kf = KFold(3, shuffle=True, random_state=case["seed"])
     tr, te = next(kf.split(X))
     return kf, {}, tr, te
